@@ -138,7 +138,7 @@ CHECKS = {
         rule=('format case = (mode, 1..8 message lengths from {0,4,..,around 127 words,..,2^16 (2^20 thorough)}); tcp case = (mode, 0..5 plain packets, optional 4-byte '
               'error frame with signed code, close at boundary/mid-message/none, composition of TCP write sizes, 0..3 messages written back); detect case = first '
               'bytes. Non-trivial: >=2 messages, a message of >=127 words, a cut inside a header, >=2 messages in one segment, or >8 segments; distinct by hash of the case.'),
-        must_hit=['client-writes-after-quiet-period>timeout', 'kind:format', 'kind:tcp', 'kind:detect', 'abridged', 'intermediate', 'msg>=127words', 'msg>=2^16words', 'client-closes-right-after-writing', 'msg-at-127-word-switch', 'cut-inside-header',
+        must_hit=['client-writes-after-quiet-period>timeout', 'client-writes-after-a-refused-write', 'kind:format', 'kind:tcp', 'kind:detect', 'abridged', 'intermediate', 'msg>=127words', 'msg>=2^16words', 'client-closes-right-after-writing', 'msg-at-127-word-switch', 'cut-inside-header',
                   'error-frame-negative', 'close:boundary', 'close:mid', 'client-writes', 'many-segments', 'msg-empty'],
         assumptions=['the kernel may coalesce separately written segments: that only weakens a case, it never falsifies one',
                      'message lengths are multiples of 4 (every MTProto packet is)', 'in-memory pipe honours the exact-count read contract that tcpConn.Read provides'],
@@ -177,7 +177,7 @@ CHECKS = {
         rule=('one case per schema definition in scope and one per registered constructor id; the whole finite set is enumerated on every run (no sampling). Non-trivial: the '
               'definition has at least one parameter / the id is registered; distinct by definition name.'),
         programs_class='programs',
-        must_hit=['zero-valued-scalar-arguments', 'kind:function', 'kind:constructor', 'kind:enum-member', 'dormant-definition', 'hand-written-wrapper', 'has-conditional-fields', 'file:mtproto.tl', 'registered-id', 'method-call', 'second-call-on-the-same-client', 'result-kind:Bool', 'result-kind:vector', 'result-kind:object', 'args:positional'],
+        must_hit=['zero-valued-scalar-arguments', 'same-method-from-4-goroutines-at-once', 'kind:function', 'kind:constructor', 'kind:enum-member', 'dormant-definition', 'hand-written-wrapper', 'has-conditional-fields', 'file:mtproto.tl', 'registered-id', 'method-call', 'second-call-on-the-same-client', 'result-kind:Bool', 'result-kind:vector', 'result-kind:object', 'args:positional'],
         assumptions=['the five commented-out header lines of api_121.tl ("these items exist in tl schema") count as definitions of the schema file; their ids are compared as written, the CRC-32 rule is not applied to them',
                      'msg_container and gzip_packed have hand-written (un)marshalers: only their ids are compared here, their wire behaviour in C02',
                      'invokeAfterMsg(s), invokeWithoutUpdates, invokeWithMessagesRange are documented as not implemented and are reported, not flagged'],
@@ -255,7 +255,7 @@ CHECKS = {
         technique='scenario-based property testing (rapid) against a reference MTProto server with search-forced numeric corners',
         rule=('case = key-exchange scenario (RSA key, server_nonce, p<q primes, pq padding, g, server secret a, padding seed, optionally injected client nonce/new_nonce/b). '
               'Every completed run is non-trivial; classes record which field the server actually saw starting with zero bytes; distinct by hash of the scenario.'),
-        must_hit=['reply-in-two-tcp-segments', 'fingerprints:known-key-first', 'fingerprints:known-key-last', 'fingerprints:known-key-in-the-middle', 'corner:nonce', 'corner:server_nonce', 'corner:new_nonce', 'corner:new_nonce_hash1', 'corner:rsa_ciphertext', 'corner:g_a', 'corner:g_b', 'corner:g_ab',
+        must_hit=['reply-in-two-tcp-segments', 'second-attempt-after-refused-connection', 'fingerprints:known-key-first', 'fingerprints:known-key-last', 'fingerprints:known-key-in-the-middle', 'corner:nonce', 'corner:server_nonce', 'corner:new_nonce', 'corner:new_nonce_hash1', 'corner:rsa_ciphertext', 'corner:g_a', 'corner:g_b', 'corner:g_ab',
                   'draws:client-own', 'draws:injected', 'pq:above-2^63', 'pq:small', 'verdict:ok'],
         assumptions=['the reference server is conformant: it follows core.telegram.org/mtproto/auth_key with fixed-width values (self-consistent: it completes with the fixed client)',
                      'DH group = Telegram\'s 2048-bit safe prime', 'a connect that the server side had to abandon (recorded reason) is judged by that reason, never by elapsed time'],
@@ -273,7 +273,7 @@ CHECKS = {
         technique='fault enumeration over a generated baseline exchange against a scripted reference server (rapid + enumerated fault catalogue)',
         rule=('case = (baseline exchange, fault = step x field x corruption x bit position). Every executed fault is non-trivial; distinct by hash of the scenario. '
               'Oracle: CreateConnection returns a non-nil error (a panic is not an error return), no session file afterwards, no encrypted frame reaches the server, child alive.'),
-        must_hit=['fault:rpc_error-naming-a-configured-data-centre', 'fault:resPQ.kind:rpc_error', 'fault:dhParams.kind:rpc_error', 'fault:dhGen.kind:rpc_error', 'step:resPQ', 'step:dhParams', 'step:dhInner', 'step:dhGen', 'fault:resPQ.fingerprints:other-clients-key', 'fault:resPQ.fingerprints:empty', 'fault:dhInner.sha1:prefix-flip', 'fault:dhInner.sha1:content-flip',
+        must_hit=['fault:rpc_error-naming-a-configured-data-centre', 'fault:resPQ.nonce:previous-exchange', 'fault:resPQ.kind:rpc_error', 'fault:dhParams.kind:rpc_error', 'fault:dhGen.kind:rpc_error', 'step:resPQ', 'step:dhParams', 'step:dhInner', 'step:dhGen', 'fault:resPQ.fingerprints:other-clients-key', 'fault:resPQ.fingerprints:empty', 'fault:dhInner.sha1:prefix-flip', 'fault:dhInner.sha1:content-flip',
                   'fault:dhGen.new_nonce_hash:flip', 'fault:dhGen.kind:gen_retry', 'fault:dhGen.kind:gen_fail', 'fault:dhParams.kind:params_fail', 'aftermath sent: new-session', 'aftermath sent: bad-salt', 'aftermath sent: update', 'aftermath sent: close', 'aftermath sent: app-reconnect', 'verdict:ok'],
         fold={'fault:': ('fault_classes_covered', 60)},
         assumptions=['not generated because the statement does not list them: a different server_nonce in resPQ (the server chooses it), corrupted pq, g, dh_prime, g_a, server_time'],
@@ -292,7 +292,7 @@ CHECKS = {
         technique='metamorphic reseeding and clock-window seed recovery over generated seeds (rapid); falsification of unpredictability, not proof of provenance',
         rule=('case = (kind in {reseed-nonces, reseed-exchange, reseed-srp, clock-nonce, clock-exponent, reseed-exponent-params}, seed value, g, password, dh_prime, g_a). Every case is non-trivial; distinct by hash of the case. '
               'coverage.classes["seed-candidates-tried"] counts the candidate seeds replayed.'),
-        must_hit=['kind:reseed-nonces', 'kind:clock-nonce', 'kind:clock-exponent', 'kind:reseed-srp', 'kind:reseed-exponent-params', 'small-group', 'kind:srp-distinct', 'secure_random_len=1', 'kind:stalled-os-source', 'stall=300ms', 'kind:many-draws', 'kind:short-os-source', 'seed-candidates-tried'],
+        must_hit=['kind:retry-exponents', 'kind:reseed-nonces', 'kind:clock-nonce', 'kind:clock-exponent', 'kind:reseed-srp', 'kind:reseed-exponent-params', 'small-group', 'kind:srp-distinct', 'secure_random_len=1', 'kind:stalled-os-source', 'stall=300ms', 'kind:many-draws', 'kind:short-os-source', 'seed-candidates-tried'],
         assumptions=['the statement quantifies over code paths; this check executes the (straight-line) paths under generated environments and can only refute unpredictability',
                      'the exponent\'s seed, if clock-derived, is read within 300 us of entering MakeGAB (it is needed before the exponentiations that dominate the call)'],
     ),
@@ -307,7 +307,7 @@ CHECKS = {
         technique='scenario-based property testing (rapid) with tagged requests against a scripted reference server; directed yield-point schedules',
         rule=('case = rpc scenario on a resumed session: callers x tagged requests, answer order/grouping/gzip/errors, optional hold of one sender until another request arrived, GOMAXPROCS. '
               'Non-trivial: >=2 requests answered out of order, a container, a gzip-packed result or a vector result; distinct by hash of the scenario.'),
-        must_hit=['feat:gzip:flushed-in-between', 'feat:gzip:stored', 'feat:answered-out-of-order', 'feat:container', 'feat:gzip', 'feat:rpc-error', 'concurrent-callers', 'directed:answer-while-sender-in-send-path', 'feat:nested-container', 'feat:answers-to-requests-resent-after-salt-rotation', 'feat:repeated-result', 'feat:repeated-result-before-others-in-container', 'server-history:answers-after-reconnect', 'verdict:ok'] +
+        must_hit=['feat:gzip:flushed-in-between', 'feat:gzip:stored', 'session:keyed-in-this-process', 'feat:answered-out-of-order', 'feat:container', 'feat:gzip', 'feat:rpc-error', 'concurrent-callers', 'directed:answer-while-sender-in-send-path', 'feat:nested-container', 'feat:answers-to-requests-resent-after-salt-rotation', 'feat:repeated-result', 'feat:repeated-result-before-others-in-container', 'server-history:answers-after-reconnect', 'verdict:ok'] +
                  ['feat:%s:%s' % (k, f) for k in ('object', 'bool', 'vecint', 'veclong', 'vecobj') for f in ('plain', 'container', 'gzip')],
         assumptions=['requests are made through MakeRequest / MakeRequestWithHintToDecoder with the hint the generated method of that function passes, followed by the same type assertion',
                      'a stall verdict needs a quiescent deadlocked state seen in two goroutine dumps; anything else after the patience is inconclusive',
@@ -326,7 +326,7 @@ CHECKS = {
         rule=('case = rpc scenario (callers, answer schedule, interleaved server pushes, optional hold at send.msgid, GOMAXPROCS). Non-trivial: the received stream has two '
               'adjacent requests or an acknowledgement interleaved with requests; distinct by hash of the scenario.'),
         must_hit=['feat:adjacent-requests', 'feat:ack-interleaved-with-requests', 'feat:content-related-in-container', 'directed:hold-after-msgid', 'msgid-generator', 'server-history:clock-skew-notification', 'client-ping', 'server-history:repeated-result', 'server-history:content-related-push',
-                  'server-history:service-push', 'server-history:close-and-reconnect', 'feat:stream-continues-after-reconnect', 'concurrent-callers', 'server-history:seq_no-passes-2^31', 'verdict:ok'],
+                  'server-history:service-push', 'server-history:close-and-reconnect', 'feat:stream-continues-after-reconnect', 'concurrent-callers', 'server-history:seq_no-passes-2^31', 'server-history:redelivery-after-the-acknowledgement', 'verdict:ok'],
         assumptions=['seq_no: the statement demands parity and monotonicity, not the exact value 2*count',
                      'no clock hook: equal clock readings for two messages are unreachable here (a write system call separates two reads under the send lock)',
                      'a missing acknowledgement is a violation only when the client is quiescent (receive loop idle in two goroutine dumps)'],
@@ -343,7 +343,7 @@ CHECKS = {
         technique='history enumeration (small) + generation (rapid) of salt-rotation scenarios against a reference server; state inspection for stalls',
         rule=('case = plan (fresh|resumed; per rotation: accepted-before, rejected-by, answered-now counts, announcement kind, answer order). Non-trivial: at least one rotation with '
               'a pending request; distinct by hash of the script.'),
-        must_hit=['same-request-rejected>=4-times-in-a-row', 'fresh-keyed+rotation', 'second-rotation', 'rejected-message-is-an-ack', 'salt-notifications-in-a-burst', 'store-fails-once-then-same-salt-again', 'accepted+rejected-mixed', 'pending-across-two-rotations', 'rotation-with-nothing-pending', 'salt-by-new_session_created',
+        must_hit=['same-request-rejected>=4-times-in-a-row', 'session:resumed-stored-without-key-id', 'fresh-keyed+rotation', 'second-rotation', 'rejected-message-is-an-ack', 'salt-notifications-in-a-burst', 'store-fails-once-then-same-salt-again', 'accepted+rejected-mixed', 'pending-across-two-rotations', 'rotation-with-nothing-pending', 'salt-by-new_session_created',
                   'session:resumed', 'verdict:ok'],
         assumptions=['acknowledgements that the server rejects for their stale salt are not "requests": only tagged RPC requests are counted',
                      'the hook after an adoption fires after the salt was assigned and saved, so a concurrently written message may already carry it: a newer salt is never blamed',
